@@ -194,6 +194,17 @@ CLAIMS = {
         "design_ref": "DESIGN.md section 4 C17",
         "note": "NOT decided: eigenvalues within [0,1], agreement with the true maps in the interior (numerical), conditioning of the calibration matrix.",
     },
+    "C18": {
+        "engine": "binary-valued abstract domain, E3 value numbering with one symbolic loop iteration, path events",
+        "category": "proof",
+        "technique": "static analysis: abstract interpretation over the binary-valued lattice {Bin, ?} with a summary for _poisson; value numbering of poisson with the search loop abstracted by one symbolic iteration, checking that every returning path carries |size/sum(mask) - accel| < tol for the returned mask; get_state/set_state pairing over path events; statement-order rules for seeding and cropping",
+        "text": "Proves (sound for all inputs, by abstract interpretation) that the returned mask contains only 0/1, that no path can return unless the acceleration of the very mask returned is within tol "
+                "(all other paths raise), that the global NumPy RNG state saved under `seed is not None` is restored with that same value on every returning path, that the seed is forwarded and applied before "
+                "the first draw, that the corner crop r < 1 is applied after the last mask definition and before the accuracy test, and that only the literal 1 is ever stored into the mask.",
+        "design_ref": "DESIGN.md section 4 C18",
+        "note": "Trusted base: python ast, the abstract transfer functions in domains.py/vn.py, numpy semantics of zeros/reshape/astype/comparison. Not decided: that the calibration block lies inside r < 1 (numeric), "
+                "reproducibility of numba's generator (numba seeds its own RNG from the same call). The error paths do not restore the RNG state (INFO).",
+    },
 }
 
 NOT_APPLICABLE = {p: PENDING for p in ["C%02d" % i for i in range(1, 21)]}
